@@ -19,6 +19,9 @@
 #include "mpc_lowmc.h"
 #include "picnic_impl.h"
 #include "randomness.h"
+#if defined(WITH_OPT)
+#include "simd.h"
+#endif
 
 #include <limits.h>
 #include <math.h>
